@@ -25,8 +25,12 @@ SCRATCH_ROOT = "/dev/shm" if os.path.isdir("/dev/shm") else tempfile.gettempdir(
 
 
 def _kind(spec):
-    if spec["role"] in ("static", "dynamic"):
-        return spec["role"]
+    if spec["role"] == "static":
+        return "static"
+    if spec["role"] == "dynamic":
+        if spec.get("pred") and spec["pred"]["kind"] == "set":
+            return "bystander-set"  # dynamic obstacle with a set-based prediction: outside the property's quantifier
+        return "dynamic"
     return "bystander"
 
 
@@ -78,6 +82,11 @@ class Run(RunBase):
                 all(i in self.contained for i in op["ids"])
         if k == "assign":
             if not (op["ids"] is None or all(self.contained.get(i) in ("static", "dynamic") for i in op["ids"])):
+                return False
+            if op["ids"] is None and "bystander-set" in self.contained.values():
+                # assigning "all" obstacles of a scenario that contains a set-based dynamic obstacle raises today
+                # (AttributeError); such obstacles are outside the property, so they are only ever by-standers of
+                # assignments that name the obstacles to assign
                 return False
             if op.get("time_steps") is not None:
                 # documented use: time steps of the obstacles' horizons; a step before an obstacle's initial time
@@ -147,6 +156,9 @@ class Run(RunBase):
                 raise HarnessError(f"scenario holds obstacle {oid} the model does not know")
             kind = self.contained[oid]
             tag = f"{kind}<-{self.last}"
+            if kind == "bystander-set":
+                self.probe("set-based-bystander-present")
+                continue
             if not self.assigned.get(oid):
                 continue
             ts_assigned = self._timesteps(ob) if self.assigned[oid] is True else \
@@ -342,7 +354,7 @@ class Run(RunBase):
             raise Violation(f"C07/obstacles-lost-in-roundtrip/<-{self.last}",
                             f"file round trip returned obstacles {got}, expected {sorted(self.contained)}")
         for i, k in self.contained.items():
-            self.assigned[i] = assign and k in ("static", "dynamic")
+            self.assigned[i] = assign and k in ("static", "dynamic")  # set-based obstacles stay unassigned
         if assign and any(k == "dynamic" and self._nopred(i) for i, k in self.contained.items()):
             self.probe("dynamic-without-prediction-read-with-assignment")
         return "ok"
@@ -372,7 +384,9 @@ def _assigner(rng, run, cfg):
             op["time_steps"] = sorted(rng.sample(range(lo, lo + 5), rng.randint(1, 3)))
         if not run.enabled(op):
             op.pop("time_steps", None)
-        yield op
+        if not run.enabled(op) and c:
+            op["ids"] = sorted(rng.subset(c, 0.6, at_least=1))
+        yield op if run.enabled(op) else None
 
 
 def _remover(rng, run, cfg):
@@ -416,7 +430,8 @@ class C07(Property):
                        "readd-after-remove", "readd-after-remove-assigned", "restart-deepcopy", "restart-xml+assign",
                        "restart-pb+assign", "restart-xml", "dynamic-without-prediction-read-with-assignment",
                        "partially-assigned-obstacle-checked", "standing-obstacle-turns-on-the-spot",
-                       "fork-keeps-original", "continued-on-the-other-copy", "creeping-obstacle-crosses-boundary"]
+                       "fork-keeps-original", "continued-on-the-other-copy", "creeping-obstacle-crosses-boundary",
+                       "set-based-bystander-present"]
     assumptions = [
         "geometric truth comes from crkit.geom with its don't-care band; the footprint at a time step is read from the "
         "parameters of occupancy_at_time(t).shape (whether that occupancy is the right placement is C04)",
@@ -439,7 +454,8 @@ class C07(Property):
         net.pop("_geom", None)
         obstacles = {}
         for j in range(rng.randint(1, 5)):
-            role = rng.weighted(["static", "dynamic", "dynamic_nopred", "env", "phantom"], [4, 5, 2, 0.5, 0.5])
+            role = rng.weighted(["static", "dynamic", "dynamic_nopred", "env", "phantom", "dynamic_set"],
+                                [4, 5, 2, 0.5, 0.5, 0.7])
             kinds = ("rect", "circ", "poly", "group") if rng.chance(0.25) else ("rect", "circ", "poly")
             spec = gen.gen_obstacle(rng, ids.take(), net, role=role, shape_kinds=kinds, on_road=0.85,
                                     state_cls=rng.choice(["ks", "st"]), horizon=rng.randint(1, 4), p_stand=0.25)
